@@ -36,6 +36,19 @@ def run_unit(sc, u, tier):
         return [dict(base, name="verus:%s" % name, id="verus:" + name, function="", domain="", verdict="undecided",
                      reason="extraction: %s" % ex, seconds=None, checks=0, cmd="")]
     text, meta = built["text"], built
+    # content-keyed memo: the generated file IS the input of the verifier
+    import hashlib
+    ckey = hashlib.sha256((text + "|rlimit=%d|verus-0.2026.09.13|" % u["rlimit"] + open(__file__).read()).encode()).hexdigest()
+    cdir = os.path.join(VERIF, ".cache", "verus-results")
+    cfile = os.path.join(cdir, ckey + ".json")
+    if not os.environ.get("VERIF_NO_CACHE") and os.path.exists(cfile):
+        try:
+            recs = json.load(open(cfile))
+            for r in recs:
+                r["cached"] = True
+            return recs
+        except Exception:
+            pass
     wd = os.path.join(sc.root, "verus")
     os.makedirs(wd, exist_ok=True)
     path = os.path.join(wd, name + ".rs")
@@ -124,6 +137,13 @@ def run_unit(sc, u, tier):
     if not seen:
         recs.append(dict(base, name="verus:%s" % name, id="verus:" + name, function="", domain="", verdict="undecided",
                          reason="no obligations generated", seconds=secs, checks=0, cmd=cmd_s))
+    if recs and all(r["verdict"] in ("discharged", "failed") for r in recs) and not os.environ.get("VERIF_NO_CACHE"):
+        try:
+            os.makedirs(cdir, exist_ok=True)
+            with open(cfile, "w") as fh:
+                json.dump(recs, fh)
+        except Exception:
+            pass
     return recs
 
 
